@@ -17,9 +17,23 @@ def seeds():
         rows.append('| %s | %s | %s | %s |' % (d, m['property'], ' '.join(str(m.get('needs', '')).split())[:300].replace('|', '/'),
                                              str(m.get('detection', '(being processed)')).replace('|', '/')[:330]))
     return '\n'.join(rows)
+def checks():
+    M = json.load(open(os.path.join(HERE, 'MANIFEST.json')))
+    rows = ['| id | level | deciding technique (MANIFEST) | quick tier as measured (evidence/) |', '|---|---|---|---|']
+    for c in M['checks']:
+        ev = {}
+        try:
+            ev = json.load(open(os.path.join(HERE, c['evidence_file'])))
+        except Exception:
+            pass
+        cov = ev.get('coverage', {})
+        meas = 'TLC states %s, traces/cases judged %s, executed cases %s (distinct non-trivial %s), %s s' % (
+            cov.get('states', '?'), cov.get('traces_validated_against_impl', '?'), cov.get('evaluations', '?'), cov.get('distinct_nontrivial', '?'), ev.get('wall_s', '?'))
+        rows.append('| %s | %s | %s | %s |' % (c['property_id'], c['level_claimed']['category'], c.get('technique', '').replace('|', '/'), meas))
+    return '\n'.join(rows)
 p = os.path.join(HERE, 'DESIGN.md')
 s = open(p).read()
-for tag, fn in (('findings-table', findings), ('seeds-table', seeds)):
+for tag, fn in (('findings-table', findings), ('seeds-table', seeds), ('checks-table', checks)):
     s = re.sub(r'<!-- %s -->.*?<!-- /%s -->' % (tag, tag), lambda m: '<!-- %s -->\n%s\n<!-- /%s -->' % (tag, fn(), tag), s, flags=re.S)
 open(p, 'w').write(s)
 print('tables regenerated')
